@@ -21,6 +21,9 @@ CLAIMED = {
  "C06": dict(text="Transform parameters are symbols next to the geometry: the real tangent code is run on an arc and on its translated / scaled / rotated / reflected image, the curvature and area-sign code likewise, the adimensional velocity right-hand side on two series differing in the time or length unit, and the optimum of the augmented problem is tested against the optimality conditions of the rotated problem; each comparison is an SMT query over the whole continuous group.",
              note="3-point arcs (5 thorough); frame-dependent regions (per-component sign forcing, multiplier column) are recorded findings split off by the solver; pressures only through curvature and area sign; tolerance-by-conditioning clause outside (exact arithmetic).",
              ref="3/C06"),
+ "C07": dict(text="The real Frame / ForceMatrix / PressureMatrix are built under a bounded, enumerated family of labelings (cell-id permutations with gaps, cyclic shifts, orientation patterns, vertex and edge id maps, insertion order) and compared in physical terms with a reference; tangents and tensions are symbols keyed by the physical interface and junction, so the equalities are decided for every value at once.",
+             note="The labeling family is enumerated, not symbolic (stated bound: 145 labelings per job); catalogue tissues; back-end order-independence trusted; pressure rows on concrete curved geometry.",
+             ref="3/C07"),
  "C10": dict(text="Two-frame series with symbolic tangents and uninterpreted back-ends: store contents after a solve are compared term-by-term with the back-end result, and every bounded call history (symbolic call choices) is compared with a fresh object.",
              note="Histories: 4 warm-up builds + 1 (quick) / 2 (thorough) free calls + canonical calls; T3 (K3 thorough); tangent stub contract; back-ends deterministic.",
              ref="3/C10"),
